@@ -317,7 +317,12 @@ class Repo:
                         rets.append(c)
                     collect(c)
             collect(fi.node)
-            return bool(rets) and all(isinstance(r.value, ast.Tuple) and len(r.value.elts) >= 2 for r in rets)
+            ok = bool(rets) and all(isinstance(r.value, ast.Tuple) and len(r.value.elts) >= 2 for r in rets)
+            if ok and len({len(r.value.elts) for r in rets}) == 1 and not any(isinstance(x, ast.Starred) for r in rets for x in r.value.elts):
+                tuple_fn.length = len(rets[0].value.elts)
+            else:
+                tuple_fn.length = None
+            return ok
         for ci in self.all_classes():
             for fi in ci.methods.values():
                 for n in ast.walk(fi.node):
@@ -327,6 +332,11 @@ class Repo:
                         tgt = self.resolve_method(ci, n.value.func.attr)
                         if tgt is not None and tuple_fn(tgt):
                             n._tuple_elt = True  # type: ignore[attr-defined]
+                    # a call of such a method is a tuple of known length (loops / comprehensions over it can be unrolled exactly)
+                    if isinstance(n, ast.Call) and isinstance(n.func, ast.Attribute) and isinstance(n.func.value, ast.Name) and n.func.value.id == "self":
+                        tgt = self.resolve_method(ci, n.func.attr)
+                        if tgt is not None and tuple_fn(tgt) and tuple_fn.length is not None:
+                            n._tuple_len = tuple_fn.length  # type: ignore[attr-defined]
 
     # ------------------------------------------------------------- hierarchy
     def all_classes(self) -> Iterator[ClassInfo]:
